@@ -107,5 +107,76 @@ func (w *UDPWorld) Done() bool {
 }
 
 func UDPClientAddr(i int) *net.UDPAddr {
-	return simnet.UDPAddr("10.8.0."+strconv.Itoa(1+i%250), 40000+i)
+	return simnet.UDPAddr("10.8.0."+strconv.Itoa(1+(i/2)%250), 40000+i) // pairs of clients share an IP
+}
+
+// AssocRec is what one UDP association (one handler invocation) observed.
+type AssocRec struct {
+	Client    string
+	G         string // goroutine name of the handler
+	StartStep int
+	EndStep   int
+	Reads     [][]byte
+	EndErr    string
+	Replies   int
+}
+
+// UDPRec is a harness handler for UDP associations: reads datagrams (with a
+// buffer of BufSize), optionally replies to each, stops after MaxReads reads
+// (0 = until EOF/error).
+type UDPRec struct {
+	E        *Env
+	MaxReads int
+	Reply    bool
+	BufSize  int
+	Log      *[]*AssocRec
+}
+
+func (u *UDPRec) Handle(cx *layer4.Connection, _ layer4.Handler) error {
+	rec := &AssocRec{Client: cx.RemoteAddr().String(), G: u.E.S.Name(), StartStep: u.E.S.StepNow()}
+	lk()
+	*u.Log = append(*u.Log, rec)
+	ulk()
+	bs := u.BufSize
+	if bs <= 0 {
+		bs = 9216
+	}
+	buf := make([]byte, bs)
+	for {
+		n, err := cx.Read(buf)
+		if n > 0 {
+			d := append([]byte(nil), buf[:n]...)
+			lk()
+			rec.Reads = append(rec.Reads, d)
+			ulk()
+			if u.Reply {
+				k := n
+				if k > 16 {
+					k = 16
+				}
+				if _, werr := cx.Write(append([]byte("re:"), d[:k]...)); werr == nil {
+					lk()
+					rec.Replies++
+					ulk()
+				}
+			}
+		}
+		if err != nil {
+			lk()
+			rec.EndErr = err.Error()
+			ulk()
+			break
+		}
+		lk()
+		nr := len(rec.Reads)
+		ulk()
+		if u.MaxReads > 0 && nr >= u.MaxReads {
+			break
+		}
+	}
+	es := u.E.S.StepNow()
+	lk()
+	rec.EndStep = es
+	ulk()
+	return nil
 }
